@@ -53,7 +53,7 @@ TOLERANCES = {
     "mortar parallel closed form": "2*l*(L_A+L_B)*max(1,|gap|) + 1e-11*(L_A+L_B)*max(1,|gap|)  (l = relativeSmoothingSize)",
     "mortar zero without overlap": "1e-13 * (L_A+L_B) * max(1,|g|,g^2)",
     "mortar non-negativity": "exact (>= 0)",
-    "mortar rigid-motion invariance": "1e-10 * max(1, |value|)",
+    "mortar rigid-motion invariance": "1e-10 * max(1, |value|) * max(1, scale^2)  (scale = length of A; 1 in the quick tier)",
     "assembly sum vs pairwise integrals": "1e-12 * max(1, |value|)",
     "level-set constraint values": "1e-13 * max(1, coordinate scale)",
     "penalty energy": ">= 0 exact; == 0.0 exact when no sample point penetrates; > 0 when one does",
@@ -558,10 +558,12 @@ def _run_mortar_one(g, tier, seed, rec):
             if i == j or not (status[(mode, i)][0] and status[(mode, j)][0]):
                 continue
             v, v0 = res[mode][0][i], res[mode][0][j]
-            err = onp.abs(v - v0) / onp.maximum(1.0, onp.abs(v0))
+            # a-priori rounding bound eps * |x| * (LA+LB) grows with the square of the segment scale
+            sc2 = max(1.0, float(labels["scale"]) ** 2)
+            err = onp.abs(v - v0) / (onp.maximum(1.0, onp.abs(v0)) * sc2)
             ends_ij = "coincident" if "coincident" in (status[(mode, i)][1], status[(mode, j)][1]) else "generic"
             if ends_ij == "generic" or float(onp.max(err)) <= 1e-10:
-                rec.track_max("mortar invariance: |I(moved)-I| / max(1,|I|)", float(onp.max(err)))
+                rec.track_max("mortar invariance: |I(moved)-I| / (max(1,|I|) max(1,scale^2))", float(onp.max(err)))
             if float(onp.max(err)) > 1e-10:
                 k = int(onp.argmax(err))
                 rec.violation(_mortar_key("integrate_with_mortar", "parallel" if parallel else "nonparallel",
